@@ -183,6 +183,32 @@ def segments_of(bundle, xid, sizes):
     return out
 
 
+def check_receive_late(arrivals, originals, obs):
+    ''' The application reads the queue only after everything has arrived: every complete transfer (and every whole bundle) must
+    then be there exactly once, under distinct ids.  arrivals as for check_receive; a key whose lo is None is a whole bundle. '''
+    node = UdpNode(None)
+    problems = []
+    try:
+        for step, (key, lo, hi, dgram, peer) in enumerate(arrivals):
+            node.feed(dgram, peer)
+            if node.sim.world.callback_errors:
+                err = node.sim.world.callback_errors[0]
+                return ['arrival %d: callback %s raised %s: %s' % (step, err.source, err.exc_type, str(err.exc)[:80])]
+        ids = node.queue()
+        if len(set(ids)) != len(ids):
+            problems.append('receive queue lists an id twice: %s' % ids)
+        popped = [bytes(node.call('recv_bundle_pop_data', tid)) for tid in ids]
+        want = sorted(originals.values())
+        if sorted(popped) != want:
+            problems.append('after all datagrams arrived the queue held %d bundle(s) of lengths %s, the %d complete transfers have lengths %s' % (
+                len(popped), sorted(len(item) for item in popped), len(want), sorted(len(item) for item in want)))
+        obs['receive_histories'] += 1
+        obs['late_pop_histories'] = obs.get('late_pop_histories', 0) + 1
+        return problems
+    finally:
+        node.close()
+
+
 def check_receive(arrivals, originals, obs, compose=None):
     ''' arrivals: list of (key, lo, hi, datagram, peer); originals: key -> bundle bytes. key = (peer, xid) '''
     node = UdpNode(None)
@@ -340,6 +366,15 @@ def run_case(case):
             rng.shuffle(arrivals)
             note(check_receive(arrivals, originals, obs), 'interleaved', dict(transfers=len(originals), datagrams=len(arrivals)),
                  'rand|%s' % hash(tuple((a[0], a[1]) for a in arrivals)))
+            # the same datagrams plus whole bundles in between, read by the application only at the end
+            late = list(arrivals)
+            late_originals = dict(originals)
+            for widx in range(rng.randint(1, 3)):
+                whole = make_bundle(rng.choice([41, 60, 90]), seq=40 + widx)
+                late_originals[('whole', widx)] = whole
+                late.insert(rng.randrange(len(late) + 1), (('whole', widx), None, None, whole, rng.choice(peers)))
+            note(check_receive_late(late, late_originals, obs), 'late-pop', dict(transfers=len(late_originals), datagrams=len(late)),
+                 'late|%s' % hash(tuple((a[0], a[1]) for a in late)))
     elif kind == 'multi':
         # several messages in one datagram, and message + padding
         b1 = make_bundle(rng.choice([50, 80]), seq=11)
